@@ -392,6 +392,26 @@ pub fn mutate_arrays(p: &mut Prng, doc: &Map<String, Value>, universe: usize) ->
     d.remove("_id");
     let keys = ["items\u{266D}", "more\u{266D}"];
     for k in keys.iter() {
+        // a key that vanished (or changed kind) comes back as an array only sometimes
+        if !d.get(*k).map(|v| v.is_array()).unwrap_or(false) && (d.is_empty() || p.chance(1, 2)) {
+            d.insert(k.to_string(), Value::from(Vec::<Value>::new()));
+        }
+    }
+    if p.chance(1, 10) {
+        // the key disappears: its members may stay alive elsewhere
+        let k = keys[p.below(2)];
+        if p.chance(1, 2) {
+            if let Some(Value::Array(a)) = d.get(k).cloned() {
+                let other = if k == keys[0] { keys[1] } else { keys[0] };
+                if let Some(Value::Array(b)) = d.get_mut(other) {
+                    b.extend(a);
+                }
+            }
+        }
+        d.remove(k);
+        return d;
+    }
+    for k in keys.iter() {
         if !d.get(*k).map(|v| v.is_array()).unwrap_or(false) {
             d.insert(k.to_string(), Value::from(Vec::<Value>::new()));
         }
